@@ -391,8 +391,6 @@ class Prog:
                 self.ops.append(o)
                 return True
             cands = [x for x, k in self.h.items() if k in COMPAT[op]]
-            if op in ("await", "await_ref"):
-                cands = [x for x in cands if x not in self.polled]
             if not cands:
                 continue
             x = rng.choice(sorted(cands))
